@@ -267,3 +267,8 @@ macro_rules! vharnesses {
         }
     };
 }
+
+/// the book-step toolkit (generators, reference engine, comparisons) for harnesses of dependent crates
+pub mod book {
+    pub use crate::orderbook::verif_proofs::*;
+}
